@@ -362,7 +362,14 @@ def build_controller(spec, df, K):
         import copy
         import pints
         decoy = copy.deepcopy(pm)
-        decoy.set_covariate_names(list(reversed(pm.get_covariate_names())))
+        parts = _cov_parts(decoy)
+        names = list(reversed([n for q in parts for n in q.get_covariate_names()]))
+        for q in parts:
+            k = len(q.get_covariate_names())
+            q.set_covariate_names(names[:k])
+            names = names[k:]
+        if list(decoy.get_covariate_names()) == list(pm.get_covariate_names()):
+            raise AssertionError('C14 harness: the decoy population model has the covariates of the real one')
         ctrl.set_population_model(decoy)
         ctrl.set_log_prior(pints.ComposedLogPrior(*[pints.GaussianLogPrior(1.0, 10.0)
                                                     for _ in range(ctrl.get_n_parameters())]))
@@ -371,6 +378,21 @@ def build_controller(spec, df, K):
     elif pm is not None and not spec['deco']['pop_first']:
         ctrl.set_population_model(pm)
     return ctrl
+
+
+def _cov_parts(m):
+    """The CovariatePopulationModel instances inside a (composed / reduced) population model, in order."""
+    import chi
+    if isinstance(m, chi.CovariatePopulationModel):
+        return [m]
+    if isinstance(m, chi.ReducedPopulationModel):
+        return _cov_parts(m.get_population_model())
+    if isinstance(m, chi.ComposedPopulationModel):
+        out = []
+        for q in m.get_population_models():
+            out += _cov_parts(q)
+        return out
+    return []
 
 
 def replaced_pop(spec):
